@@ -614,6 +614,9 @@ func makeReplay(o *runOpts, P *Prog, r *FuncResult, ob *Obligation) *ReplayFile 
 			vc.boundTerms(vc.valTermQuiet(vc.top.args[i]), p.Type(), heap, 0, &lens)
 		}
 	}
+	if os.Getenv("GOVC_DEBUG") != "" {
+		fmt.Fprintf(os.Stderr, "small-model length terms for %s: %v\n", ob.Name, lens)
+	}
 	script := ob.Script
 	// prefer a model in which opaque specification functions have their real definitions
 	if len(vc.opaqueDefs) > 0 {
